@@ -33,7 +33,7 @@ import (
 )
 
 type HttpInfo struct {
-	Kind     string `json:"kind"`     // cl | chunked | gzip-cl | gzip-chunked | short-cl
+	Kind     string `json:"kind"`     // cl | chunked | gzip-cl | gzip-chunked | short-cl | gzip-broken | chunked-abort
 	Limit    int    `json:"limit"`    // max-body-size of the handler (0 = none)
 	Block    int    `json:"block"`    // read-block-size
 	Declared int    `json:"declared"` // Content-Length header, -1 = none (chunked)
@@ -119,7 +119,7 @@ func httpTeardown() {
 }
 
 // doRaw writes one request on a fresh connection and returns the status (-1 = no answer).
-func doRaw(addr, query string, hdr []string, wire [][]byte) int {
+func doRaw(addr, query string, hdr []string, wire [][]byte, abort bool) int {
 	conn, err := net.DialTimeout("tcp", addr, 10*time.Second)
 	if err != nil {
 		return -1
@@ -138,6 +138,12 @@ func doRaw(addr, query string, hdr []string, wire [][]byte) int {
 	for _, p := range wire {
 		if _, err := conn.Write(p); err != nil {
 			break // the server may answer (413, 400) before it has read everything
+		}
+	}
+	if abort {
+		// the client gives up in the middle of the upload: no terminating chunk, the sending side is closed
+		if tc, ok := conn.(*net.TCPConn); ok {
+			_ = tc.CloseWrite()
 		}
 	}
 	resp, err := http.ReadResponse(bufio.NewReader(conn), nil)
@@ -272,7 +278,31 @@ func caseHTTP(r *gen.Rand, idx int) {
 	effective := body
 	var hdr []string
 	var wire [][]byte
-	switch x := r.Intn(10); {
+	abort := false
+	switch x := r.Intn(13); {
+	case x == 10 || x == 11:
+		// the upload breaks off after a prefix of the chunked body (at any byte, inside a line or not)
+		k := r.Range(1, len(raw))
+		info.Kind, abort = "chunked-abort", true
+		hdr = []string{"Transfer-Encoding: chunked"}
+		wire = chunkedWire(r, raw[:k])
+		wire = wire[:len(wire)-1]
+		raw = raw[:k]
+	case x == 12:
+		// a gzip stream that ends before its end: the decoder fails after having delivered a prefix of the text
+		z := gz(raw)
+		k := r.Range(12, len(z)-1)
+		z = z[:k]
+		info.Kind, info.Stream = "gzip-broken", false
+		if r.Bool() {
+			info.Declared = len(z)
+			hdr = []string{"Content-Encoding: gzip", fmt.Sprintf("Content-Length: %d", len(z))}
+			wire = [][]byte{z}
+		} else {
+			hdr = []string{"Content-Encoding: gzip", "Transfer-Encoding: chunked"}
+			wire = chunkedWire(r, z)
+		}
+		raw = z
 	case x < 3:
 		info.Kind, info.Declared = "cl", len(raw)
 		hdr = []string{fmt.Sprintf("Content-Length: %d", len(raw))}
@@ -303,20 +333,13 @@ func caseHTTP(r *gen.Rand, idx int) {
 	}
 	info.Sent = len(raw)
 	env.w.take()
-	status := doRaw(env.srv.Listener.Addr().String(), query, hdr, wire)
+	status := doRaw(env.srv.Listener.Addr().String(), query, hdr, wire, abort)
 	groups := env.w.take()
 	info.Status, info.Groups = status, len(groups)
 	var rows []RowObs
 	for _, g := range groups {
 		rows = append(rows, g...)
 	}
-	sort.SliceStable(rows, func(a, b int) bool {
-		if rows[a].Ts == nil || rows[b].Ts == nil {
-			// only the line an understated Content-Length cuts can lose its timestamp: it is the last line
-			return rows[a].Ts != nil && rows[b].Ts == nil
-		}
-		return *rows[a].Ts < *rows[b].Ts
-	})
 	c := &Case{I: idx, Class: "httpw", Sub: info.Kind, Mult: pr.mult, In: hx(effective), Text: effective, Err: status < 200 || status >= 300,
 		Rows: rows, Judged: true, Nontrivial: true, HTTP: info}
 	none := func(f string, a ...any) { c.Oracle = append(c.Oracle, OracleFail{"none", fmt.Sprintf(f, a...)}) }
@@ -343,6 +366,18 @@ func caseHTTP(r *gen.Rand, idx int) {
 			allValid = false
 		}
 	}
+	// canonical order: the rows of complete lines in line order (the blocks are parsed concurrently), then whatever
+	// else is stored (only the line an understated Content-Length cuts can be there)
+	lineOf := func(ro RowObs) int {
+		if ro.Ts != nil {
+			if i, ok := byTs[*ro.Ts]; ok {
+				return i
+			}
+		}
+		return len(lines) + 1
+	}
+	sort.SliceStable(rows, func(a, b int) bool { return lineOf(rows[a]) < lineOf(rows[b]) })
+	c.Rows = rows
 	seen := map[int]bool{}
 	for _, ro := range rows {
 		if ro.Ts == nil {
@@ -369,6 +404,8 @@ func caseHTTP(r *gen.Rand, idx int) {
 		}
 	}
 	switch {
+	case status == -1 && abort:
+		// no answer to an upload that broke off: nothing acknowledged
 	case status == -1:
 		none("no HTTP answer")
 	case status >= 200 && status < 300:
@@ -388,7 +425,7 @@ func caseHTTP(r *gen.Rand, idx int) {
 		if info.Declared >= 0 && L > 0 && info.Declared > L {
 			within = false
 		}
-		if within && allValid && !cutLine {
+		if within && allValid && !cutLine && info.Kind != "chunked-abort" && info.Kind != "gzip-broken" {
 			c.Sub += "/valid-refused"
 		}
 	}
